@@ -12,6 +12,7 @@ import (
 	"math/rand"
 	"net"
 	"os"
+	"os/exec"
 	"path/filepath"
 	"strings"
 
@@ -370,12 +371,21 @@ func runConfig(args []string) error {
 		return err
 	}
 	defer t.Close()
+	// one more interface for this run when the sandbox allows it: a tun device is multicast-capable but cannot broadcast
+	// (link-local multicast listeners are expanded to the SUITABLE interfaces only: DHCPv4 needs broadcast as well)
+	tun := fmt.Sprintf("vft%d", os.Getpid()%100000)
+	if exec.Command("ip", "tuntap", "add", "dev", tun, "mode", "tun").Run() == nil {
+		exec.Command("ip", "link", "set", tun, "up").Run()
+		defer exec.Command("ip", "tuntap", "del", "dev", tun, "mode", "tun").Run()
+	}
 	ifs := []Ev{}
 	zoneName := "eth0"
 	nifs, _ := net.Interfaces()
 	for _, i := range nifs {
 		ifs = append(ifs, Ev{"name": i.Name, "mcast": i.Flags&net.FlagMulticast != 0, "bcast": i.Flags&net.FlagBroadcast != 0})
-		zoneName = i.Name
+		if i.Name != tun {
+			zoneName = i.Name
+		}
 	}
 	r := rand.New(rand.NewSource(*seed))
 	k := 0
